@@ -209,12 +209,14 @@ func runC03(c *Ctx) {
 			}
 			suffix := strings.TrimPrefix(fnName(callee), "nullIndex")
 			if suffix == "" && len(callee.TypeArgs()) == 1 {
-				sz := int64(0)
+				// the generic scanner compares whole values of T: T must be the type the function is named after
+				ta := callee.TypeArgs()[0].String()
+				got = append(got, "nullIndex["+ta+"]")
+				sz := int64(-1)
 				if sizes != nil {
 					sz = sizes.Sizeof(callee.TypeArgs()[0])
 				}
-				got = append(got, "nullIndex["+callee.TypeArgs()[0].String()+"]")
-				if sz == want {
+				if strings.EqualFold(ta, name) || sz == want {
 					ok = true
 				}
 				return
